@@ -2,6 +2,8 @@ package path
 
 import (
 	"errors"
+	"fmt"
+	"strings"
 )
 
 func build(source string, parsed any) PropertyPath {
@@ -52,12 +54,19 @@ func ParsePath(path string) (PropertyPath, error) {
 			},
 		}, nil
 	}
-	parsed, err := Parse("", []byte(path))
+	p := newParser("", []byte(path))
+	parsed, err := p.parse(g)
+	if err == nil && p.pt.offset < len(p.data) {
+		// the grammar has no end-of-input rule: a match that stops short of the end is not a path
+		err = fmt.Errorf("invalid property path '%s': unexpected input at offset %d", path, p.pt.offset)
+	}
 	if err != nil {
-		panic(err)
+		return nil, err
 	}
 
-	propertyPath := build(path, parsed)
+	// the source is pasted into one-line comments of the generated code: keep it on one line
+	source := strings.NewReplacer("\r\n", " ", "\n", " ", "\r", " ").Replace(path)
+	propertyPath := build(source, parsed)
 
 	return propertyPath, nil
 }
